@@ -521,6 +521,9 @@ theorem addTemplates_posOk (fileName text nsName : Bytes) (nsAe : Autoescape) :
         | exact hstep _ _ (key _ _ _ _ _ _) h
         | exact absurd h (by simp)
     · exact addTemplates_posOk fileName text nsName nsAe rest _ reg reg' (fun c' hc' => hc c' (by simp [hc'])) hreg h
+    · exact addTemplates_posOk fileName text nsName nsAe rest _ reg reg' (fun c' hc' => hc c' (by simp [hc'])) hreg h
+    · exact addTemplates_posOk fileName text nsName nsAe rest _ reg reg' (fun c' hc' => hc c' (by simp [hc'])) hreg h
+    · cases h
 
 /-- `Registry.Add(parse.SoyFile(name, input))`: every registered template satisfies `posOk` — the
     hypothesis of `Props/C06.execute_contract` — provided the templates registered before do. -/
